@@ -55,6 +55,8 @@ let table : (string * (z list -> z)) list = [
   ("network", judge_network);
   ("repmat", judge_repmat);
   ("camion", judge_camion);
+  ("kcompose", judge_kcompose);
+  ("kdecomp", judge_kdecomp);
 ]
 
 let () =
